@@ -10,6 +10,12 @@ var credDefects = []string{"none", "wrongkey", "flipmi", "truncmi", "unknownuser
 // genC03: every method x credential defect x server state, both nonce implementations and
 // every HMAC truncation length (handler level), with the clock moved across the nonce hour.
 func genC03(p *Plan, r *RNG) {
+	if r.Chance(1, 10) {
+		// the TCP relay methods (Connect, ConnectionBind by owner, other user, bad credentials)
+		genC16(p, r)
+		p.Flavor = "cred:" + p.Flavor
+		return
+	}
 	baseSrvConfig(p, r)
 	p.Flavor = "cred"
 	hm := 12
